@@ -10,7 +10,8 @@ usage: miri_check.py <prop> <quick|thorough>      exit 0 held / 1 violation / 2 
 """
 import json, os, re, subprocess, sys, time
 
-MIRI_DIR = "/verif/miri"
+ROOT = os.path.dirname(os.path.abspath(__file__))
+MIRI_DIR = os.path.join(ROOT, "miri")
 # which classes of Miri error belong to which property
 CLASSES = {
     "C15": [("data-race", re.compile(r"Data race detected"))],
@@ -88,12 +89,12 @@ def main():
                     # an error of a class that another property's check owns
                     other.append(f"{sc}: " + (text.splitlines()[0] if text else "non-zero exit"))
                     continue
-                os.makedirs("/verif/replays", exist_ok=True)
-                path = f"/verif/replays/{prop}-miri-{cls}-{sc}-{a}.json"
+                os.makedirs(os.path.join(ROOT, "replays"), exist_ok=True)
+                path = os.path.join(ROOT, "replays", f"{prop}-miri-{cls}-{sc}-{a}.json")
                 detail = "\n".join([l for l in out.splitlines() if not l.startswith("Trying seed")][:60])
                 json.dump({"format": "flurry-miri-replay-1", "property": prop, "class": cls, "scenario": sc, "argv_seed": a,
                            "miri_seeds": [0, nseeds], "miriflags": flags, "detail": detail,
-                           "how_to_replay": f"cd /verif/miri && MIRIFLAGS='{flags}' cargo +nightly miri run --offline -- {sc} {a}"}, open(path, "w"), indent=1)
+                           "how_to_replay": f"cd {MIRI_DIR} && MIRIFLAGS='{flags}' cargo +nightly miri run --offline -- {sc} {a}"}, open(path, "w"), indent=1)
                 print(f"Miri scenario {sc} (argv seed {a}, miri seeds 0..{nseeds}): {cls}")
                 print(detail[:3000])
                 update_evidence(prop, tier, total, wall, per, other, 1)
@@ -104,7 +105,7 @@ def main():
     sys.exit(0)
 
 def update_evidence(prop, tier, total, wall, per, other, viol):
-    path = f"/verif/evidence/{prop}.json"
+    path = os.path.join(ROOT, "evidence", f"{prop}.json")
     try:
         ev = json.load(open(path))
     except Exception:
